@@ -157,9 +157,9 @@ impl Property for C02 {
             })
             .prop_map(|(mut cfg, ops)| {
                 // in half of the cases the records are dual-stack (an IPv6 socket next to the IPv4 one), and
-                // in a third of those V itself listens on both families
+                // in two thirds of those V itself listens on both families
                 cfg.dual_records = cfg.seqs.get(1).map(|s| s % 2 == 0).unwrap_or(false);
-                cfg.v_dual_listen = cfg.dual_records && cfg.seqs.get(2).map(|s| *s == 2).unwrap_or(false);
+                cfg.v_dual_listen = cfg.dual_records && cfg.seqs.get(2).map(|s| *s != 1).unwrap_or(false);
                 Case { cfg, ops }
             })
             .boxed()
